@@ -17,11 +17,11 @@ STEP_BUDGET = 5_000_000
 ANCHOR_FILES = ["dissect/hypervisor/util/vmtar.py"]
 RULE = (
     "Visor tar archives written by an independent writer (layout confirmed against the repository sample): 0..60 "
-    "members - visor regular files (0..300 KiB, data areas in any order, page-aligned / 512-aligned / unaligned, with "
+    "members - visor regular files (type flags '0', NUL and '7'; 0..300 KiB, data areas in any order, page-aligned / 512-aligned / unaligned, with "
     "gaps, two members sharing one equal data area, data areas at or beyond 2 GiB on a sparse backing object), "
     "directories, empty files with zero and non-zero recorded offsets, symlinks, ordinary ustar/GNU members with inline "
     "data interleaved between visor headers, GNU long names and ustar prefixes, trailing padding; plain and "
-    "gzip-wrapped; plus pure non-visor archives made by the standard library and compared differentially with "
+    "gzip-wrapped (single and several concatenated gzip members); plus pure non-visor archives made by the standard library and compared differentially with "
     "tarfile.open. Oracle: member list (names, types, sizes, order) equals the generated list and every regular member "
     "extracts to the bytes the writer put at its recorded data offset. Non-trivial: >= 2 visor files whose data order "
     "differs from header order, or a mix of visor and inline members; distinct = (member kinds, sizes, placement)."
@@ -30,7 +30,8 @@ ASSUMPTIONS = [
     "the harness's writer is a faithful reading of /bin/vmtar's layout as seen in the sample",
     "held means: held on the executions listed, not verified for all archives",
 ]
-MINIMA = {"quick": {"members_extracted": 2500, "gzip_cases": 40, "longname_members": 60, "inline_std_members": 150, "far_offset_members": 10},
+MINIMA = {"quick": {"members_extracted": 2500, "gzip_cases": 40, "longname_members": 60, "inline_std_members": 150, "far_offset_members": 10, "multi_member_gzip_cases": 10,
+                    "old_style_or_contiguous_type_members": 100},
           "thorough": {"members_extracted": 30000}}
 MECH = "vmtar"
 DATA = os.path.join(os.environ.get("VF_REPO", "/repo"), "tests", "data")
@@ -80,6 +81,9 @@ def gen_members(rng, nmax=60):
             m["data"] = hashlib.shake_128(f"{j}/{size}/{rng.getrandbits(32)}".encode()).digest(size)
             m["text_pgs"] = rng.choice([0, 0, 3])
             m["fixup_pgs"] = rng.choice([0, 0, 1])
+        if kind in ("file", "std", "empty") and not name.endswith("/"):
+            # regular files may carry the old-style NUL type flag or the 'contiguous file' flag
+            m["typeflag"] = rng.choice([b"0", b"0", b"0", b"\0", b"7"])
         members.append(m)
     # two members sharing one (equal) data area
     files = [i for i, m in enumerate(members) if m["kind"] == "file"]
@@ -171,7 +175,14 @@ def run(case: dict, ctx) -> dict:
     else:
         raw = built
         if rng.random() < 0.35:
-            raw = gzip.compress(raw, compresslevel=1)
+            if rng.random() < 0.4 and len(raw) > 2:
+                # several concatenated gzip members (cat a.gz b.gz), split anywhere
+                cuts = sorted({rng.randrange(1, len(raw)) for _ in range(rng.randrange(1, 4))})
+                parts = [raw[a:b] for a, b in zip([0] + cuts, cuts + [len(raw)])]
+                raw = b"".join(gzip.compress(p_, compresslevel=1) for p_ in parts)
+                cnt["multi_member_gzip_cases"] = 1
+            else:
+                raw = gzip.compress(raw, compresslevel=1)
             gz = True
         fobj = io.BytesIO(raw)
     o = call(lambda: vmtar.open(fileobj=fobj))
@@ -213,6 +224,7 @@ def run(case: dict, ctx) -> dict:
     cnt["inline_std_members"] = kinds.count("std")
     cnt["far_offset_members"] = sum(1 for o_ in offs.values() if o_ >= (1 << 31))
     cnt["shared_data_members"] = sum(1 for m in members if m.get("share") is not None)
+    cnt["old_style_or_contiguous_type_members"] = sum(1 for m in members if m.get("typeflag", b"0") != b"0")
     file_idx = [i for i, m in enumerate(members) if m["kind"] == "file"]
     order = [offs[i] for i in file_idx]
     res["nontrivial"] = (len(order) >= 2 and order != sorted(order)) or ("std" in kinds and "file" in kinds)
